@@ -38,9 +38,9 @@ Record fixes := mkFixes {
   fx_surplus : bool }. (* C20-local-surplus:      every value of a local declaration is visited (`continue`, not `break`) *)
 Definition no_fixes : fixes := mkFixes false false false false false false false.
 Definition all_fixes : fixes := mkFixes true true true true true true true.
-(* the state of /repo: everything but C20-local-surplus (that one changes what EVERY pass visits, which the models of
-   other properties (Usage.v, Scope.v, Symbols.v) describe as well) *)
-Definition deployed : fixes := mkFixes true true true true true true false.
+(* the state of /repo: every repair (C20-local-surplus changes what EVERY pass visits: the models of the other
+   properties - Usage.v, Scope.v, Symbols.v - were switched with it) *)
+Definition deployed : fixes := mkFixes true true true true true true true.
 
 (* ------------------------------------------------------------------ small helpers *)
 Definition is_initial_loc (l : loc) : bool := loc_eqb l zero_loc.          (* Location.IsInitialLoc *)
